@@ -3,6 +3,7 @@ package object
 import (
 	"errors"
 	"fmt"
+	"sort"
 
 	fail "github.com/textwire/textwire/v2/fail"
 )
@@ -26,7 +27,18 @@ func NewEnclosedEnv(outer *Env) *Env {
 func EnvFromMap(data map[string]any) (*Env, *fail.Error) {
 	env := NewEnv()
 
-	for key, val := range data {
+	// the keys are visited in sorted order so that, with several
+	// faulty entries, the same one is reported every time
+	keys := make([]string, 0, len(data))
+
+	for key := range data {
+		keys = append(keys, key)
+	}
+
+	sort.Strings(keys)
+
+	for _, key := range keys {
+		val := data[key]
 		obj := NativeToObject(val)
 
 		if obj == nil {
